@@ -406,3 +406,63 @@ impl Report {
         }
     }
 }
+
+/// The laws every `Iterator` must obey, checked on a factory of fresh iterators over the same sequence:
+/// `count`, `last`, `nth`, the same sequence from every fresh iterator, and what is left after partial consumption. Items are compared through `key`. Err(description) on the first law broken.
+pub fn iter_laws_by<T, K: PartialEq + std::fmt::Debug, I: Iterator<Item = T>>(mk: impl Fn() -> I, key: impl Fn(&T) -> K) -> Result<usize, String> {
+    let full: Vec<K> = mk().map(|x| key(&x)).collect();
+    let n = full.len();
+    if mk().count() != n {
+        return Err(format!("count() = {} but collecting yields {} items", mk().count(), n));
+    }
+    let again: Vec<K> = mk().map(|x| key(&x)).collect();
+    if again != full {
+        return Err("two fresh iterators over the same object yield different sequences".into());
+    }
+    let mut it = mk();
+    for used in 0..=n {
+        // (size_hint is deliberately not judged: `ClassIdIterator::size_hint` of the unchanged crate does not decrease
+        // while the iterator is consumed; that breaks the std contract but none of the twenty properties)
+        let x = it.next().map(|x| key(&x));
+        if x.as_ref() != full.get(used) {
+            return Err(format!("item {} differs between two runs: {:?} vs {:?}", used, x, full.get(used)));
+        }
+    }
+    let l = mk().last().map(|x| key(&x));
+    if l.as_ref() != full.last() {
+        return Err(format!("last() = {:?} but the last collected item is {:?}", l, full.last()));
+    }
+    for k in [0, 1, n / 2, n.saturating_sub(1), n, n + 1] {
+        let got = mk().nth(k).map(|x| key(&x));
+        if got.as_ref() != full.get(k) {
+            return Err(format!("nth({}) = {:?} but item {} is {:?}", k, got, k, full.get(k)));
+        }
+        // what is left after nth(k)
+        let mut it = mk();
+        let _ = it.nth(k);
+        let rest = it.count();
+        if rest != n.saturating_sub(k + 1) {
+            return Err(format!("after nth({}) of {} items, count() = {}", k, n, rest));
+        }
+    }
+    for j in [1, n / 2] {
+        if j <= n {
+            let mut it = mk();
+            for _ in 0..j {
+                let _ = it.next();
+            }
+            let c = it.count();
+            if c != n - j {
+                return Err(format!("after {} next() calls out of {}, count() = {}", j, n, c));
+            }
+            if mk().skip(j).next().map(|x| key(&x)).as_ref() != full.get(j) {
+                return Err(format!("skip({}).next() is not item {}", j, j));
+            }
+        }
+    }
+    Ok(n)
+}
+
+pub fn iter_laws<T: PartialEq + std::fmt::Debug + Clone, I: Iterator<Item = T>>(mk: impl Fn() -> I) -> Result<usize, String> {
+    iter_laws_by(mk, |x| x.clone())
+}
